@@ -1246,6 +1246,34 @@ func ruleSizeGuardExact(c *Check, p *Program, rule string) {
 			return false
 		}
 		bi, isBi := call.Call.Value.(*ssa.Builtin)
+		if !isBi {
+			return false
+		}
+		if bi.Name() == "cap" {
+			return true
+		}
+		if bi.Name() != "len" {
+			return false
+		}
+		// the length of a slice that has just been extended to its capacity (x[:cap(x)]) is the capacity; the length of
+		// the block buffer as the previous block left it is not
+		sl, isS := call.Call.Args[0].(*ssa.Slice)
+		if !isS || sl.High == nil {
+			return false
+		}
+		hc, isHC := sl.High.(*ssa.Call)
+		if !isHC {
+			return false
+		}
+		hb, isHB := hc.Call.Value.(*ssa.Builtin)
+		return isHB && hb.Name() == "cap"
+	}
+	isLenOrCap := func(v ssa.Value) bool {
+		call, isC := v.(*ssa.Call)
+		if !isC {
+			return false
+		}
+		bi, isBi := call.Call.Value.(*ssa.Builtin)
 		return isBi && (bi.Name() == "cap" || bi.Name() == "len")
 	}
 	n, recognised := 0, 0
@@ -1272,10 +1300,14 @@ func ruleSizeGuardExact(c *Check, p *Program, rule string) {
 			n++
 			for _, a := range atomsOfBlockLocal(in.Block()) {
 				bo, isB := a.V.(*ssa.BinOp)
-				if a.Kind != "cmp" || !isB || !(isCap(bo.X) || isCap(bo.Y)) {
+				if a.Kind != "cmp" || !isB || !(isLenOrCap(bo.X) || isLenOrCap(bo.Y)) {
 					continue
 				}
 				recognised++
+				if !(isCap(bo.X) || isCap(bo.Y)) {
+					c.Fail(rule, "FrameDataBlock.Read#oversize-exit-is-strict", p.InstrPos(in), "a block is refused as too large only when its size exceeds the capacity of the block buffer", "the size is compared with the current length of the block buffer ("+a.String()+"), which is what the previous block left there: a block larger than its predecessor is refused")
+					continue
+				}
 				// the atom is strict when its negation is a >= / <= statement with the capacity as the big side
 				neg := a
 				neg.Val = !a.Val
@@ -1790,7 +1822,7 @@ func ruleLegacyDescriptor(c *Check, p *Program, rule string) {
 // R09.15 / R18.12: SizeOption behaves alike for every object it applies to: in each arm of its type switch the
 // Size flag is set from `size > 0` and the content size is stored, neither under a condition on the size
 // (SizeOption(0) clears a size announced earlier; the descriptor survives Reset).
-func ruleSizeOptionArms(c *Check, p *Program, rule string) {
+func ruleSizeOptionArms(c *Check, p *Program, rule string, owner string) {
 	n := 0
 	for _, fn := range moduleFuncs(p, pkgRoot) {
 		if fn.Parent() == nil || fn.Parent().Name() != "SizeOption" {
@@ -1816,6 +1848,9 @@ func ruleSizeOptionArms(c *Check, p *Program, rule string) {
 			return false
 		}
 		allInstrs(fn, func(in ssa.Instruction) {
+			if o := optionArmOwner(in); owner != "" && o != "" && o != owner {
+				return // the arm of another object kind
+			}
 			switch x := in.(type) {
 			case *ssa.Store:
 				if lastField(x.Addr) == "FrameDescriptor.ContentSize" {
@@ -2459,8 +2494,13 @@ func ruleWritesFailAfterClose(c *Check, p *Program, rule string) {
 // R17.15 / R05.12: observers are pure. Methods that only report something about the object (Size, the concurrency
 // test, the error-latch peek, the descriptor getters) perform no I/O on the user's streams and store to no field,
 // directly or in a module callee. (A reader of state that also parses, flushes or resets changes what later calls see.)
+type obsSpec struct{ rel, name string }
+
 func ruleObserversPure(c *Check, p *Program, rule string) {
-	obs := []struct{ rel, name string }{{"", "Reader.Size"}, {"", "Writer.isNotConcurrent"}, {"", "Reader.isNotConcurrent"}, {"internal/lz4stream", "Blocks.ErrorR"}, {"internal/lz4stream", "Frame.isLegacy"}}
+	ruleObserversPureOf(c, p, rule, []obsSpec{{"", "Reader.Size"}, {"", "Writer.isNotConcurrent"}, {"", "Reader.isNotConcurrent"}, {"internal/lz4stream", "Blocks.ErrorR"}, {"internal/lz4stream", "Frame.isLegacy"}}, 2)
+}
+
+func ruleObserversPureOf(c *Check, p *Program, rule string, obs []obsSpec, atLeast int) {
 	n := 0
 	for _, o := range obs {
 		fn := p.Func(o.rel, o.name)
@@ -2514,7 +2554,7 @@ func ruleObserversPure(c *Check, p *Program, rule string) {
 		c.Sites++
 		c.Cond(bad == "", rule, o.name+"#observer-is-pure", p.Pos(fn.Pos()), o.name+" only reports: it reads no stream and changes no field (directly or in a callee)", "no field store, no stream call", o.name+" "+bad+": a call that is supposed to observe changes what later calls see (a header consumed, an error dropped, a state changed)")
 	}
-	c.Cond(n >= 2, rule, "observers#found", "", "observer methods were found", fmt.Sprintf("%d analysed", n), fmt.Sprintf("only %d of the observer methods exist", n))
+	c.Cond(n >= atLeast, rule, "observers#found", "", "observer methods were found", fmt.Sprintf("%d analysed", n), fmt.Sprintf("only %d of the observer methods exist", n))
 }
 
 // R07.10 / R15.8: the user's streams are used only through the interface they were given as. A value that comes from
@@ -3153,5 +3193,121 @@ func ruleModeAfterInit(c *Check, p *Program, rule string) {
 	}
 	if n < 2 {
 		c.Fail(rule, "Reader#mode-tests", "", "the mode tests of Reader.Read and Reader.WriteTo are resolved", fmt.Sprintf("only %d mode test(s) found", n))
+	}
+}
+
+// ---------------------------------------------------------------------------
+// R07.16, numeric: FrameDataBlock.Uncompress cannot panic on any (block bytes, destination) pair: the destination is
+// whatever the caller has (after the end of a frame it is the caller's own, possibly tiny, buffer) and the block bytes
+// are whatever the stream announced, so every re-slice of the destination must be bounded by a quantity known not to
+// exceed it (the result of copy, or the count the block decoder returns: 0 <= n <= len(dst), its result obligation
+// under C03/C04).
+
+func ruleUncompressNoPanic(c *Check, p *Program, rule string) {
+	if !bndArch() {
+		return
+	}
+	fn := findFn(c, p, rule, "internal/lz4stream", "FrameDataBlock.Uncompress")
+	if fn == nil {
+		return
+	}
+	coll := newCollector()
+	hooks := goHooks{
+		inlineOnly: func(g *goProg, a *AbsState, call *ssa.Call, f *ssa.Function) bool {
+			if pureCallee(f) {
+				return true
+			}
+			return f.Pkg == fn.Pkg && isHelper(f) && len(f.Blocks) <= 12
+		},
+		afterCall: func(g *goProg, a *AbsState, call *ssa.Call, f *ssa.Function) {
+			if f == nil || f.Pkg == nil || !strings.HasSuffix(f.Pkg.Pkg.Path(), "internal/lz4block") || f.Name() != "UncompressBlock" || len(call.Call.Args) < 2 {
+				return
+			}
+			if v, has := a.vals[g.k(call)+"#0"]; has {
+				a.st.le(v.Neg())
+				a.st.leq(v, g.sliceOf(a, call.Call.Args[1]).len)
+			}
+		},
+	}
+	lp0 := lpCount
+	roots := []string{"field:FrameDataBlock.data"}
+	for _, prm := range fn.Params {
+		if isSliceType(prm.Type()) {
+			roots = append(roots, prm.Name())
+		}
+	}
+	res, _, err := analyseGoFunc(p, fn, "FrameDataBlock.Uncompress", roots, hooks, coll)
+	c.LPQ += lpCount - lp0
+	if err != nil {
+		c.TroubleF("FrameDataBlock.Uncompress: %v", err)
+		return
+	}
+	if res.trouble != "" {
+		c.TroubleF("FrameDataBlock.Uncompress: %s", res.trouble)
+	}
+	desc := "no slice or index operation of Uncompress can panic, whatever the sizes of the block and of the destination (after the end of a frame the destination is the caller's own buffer)"
+	n := 0
+	for _, k := range coll.order {
+		o := coll.obls[k]
+		if o.kind != "nopanic" {
+			continue
+		}
+		n++
+		if o.ok {
+			c.OK(rule, o.site, o.pos, desc, fmt.Sprintf("entailed in all %d abstract state(s)", o.states), true)
+		} else {
+			c.Fail(rule, o.site, o.pos, desc, "not entailed: "+strings.Join(o.fail, " || "))
+		}
+	}
+	if n == 0 {
+		c.Fail(rule, "FrameDataBlock.Uncompress#no-panic", p.Pos(fn.Pos()), desc, "no slice operation reached by the analysis")
+	}
+}
+
+// ---------------------------------------------------------------------------
+// R07.17: the channel the consuming side of the concurrent Reader receives from (Reader.reads) is never left nil
+// where a receive can follow: a receive from a nil channel blocks forever. A nil store to the field is admitted only
+// together with the state reset (`_State.reset`, which sends the next call through init, where the channel is set).
+
+func ruleReadsChannelNotNil(c *Check, p *Program, rule string) {
+	n := 0
+	for _, fn := range moduleFuncs(p, pkgRoot) {
+		if recvTypeName(fn) != "Reader" && (fn.Parent() == nil || recvTypeName(fn.Parent()) != "Reader") {
+			continue
+		}
+		isReset := func(in ssa.Instruction) bool {
+			ci, ok := in.(ssa.CallInstruction)
+			return ok && calleeIs(ci, pkgRoot, "_State.reset")
+		}
+		allInstrs(fn, func(in ssa.Instruction) {
+			st, ok := in.(*ssa.Store)
+			if !ok || lastField(st.Addr) != "Reader.reads" {
+				return
+			}
+			n++
+			c.Sites++
+			key := shortFn(fn) + "#reads-channel-store"
+			desc := "the channel Read and WriteTo receive from is set by init and cleared only together with the state reset: a receive from a nil channel never returns"
+			if !isNilConst(st.Val) {
+				c.Cond(true, rule, key, p.InstrPos(in), desc, "a channel value is stored", "")
+				return
+			}
+			before := false
+			for _, b := range fn.Blocks {
+				for _, j := range b.Instrs {
+					if isReset(j) && (b != in.Block() && b.Dominates(in.Block()) || b == in.Block() && idxOf(j) < idxOf(in)) {
+						before = true
+					}
+				}
+			}
+			miss := true
+			if !before {
+				miss, _ = reachAvoid(fn, in, isReturn, isReset)
+			}
+			c.Cond(before || !miss, rule, key, p.InstrPos(in), desc, "nil store accompanied by _State.reset on every path", "the channel is set to nil while the Reader stays in its current state: the next Read or WriteTo in concurrent mode receives from a nil channel and blocks forever")
+		})
+	}
+	if n == 0 {
+		c.Fail(rule, "Reader#reads-channel-store", "", "stores to Reader.reads are resolved", "no store to Reader.reads found (anchor unresolved)")
 	}
 }
